@@ -156,7 +156,7 @@ def rle_expand(runs):
 
 # ---------------------------------------------------------------- per-character data
 def char_data(text):
-    """[(encoded byte length, columns of the encoded bytes)] for every character / byte of text."""
+    """[(encoded byte length, columns of the encoded bytes, isascii)] for every character / byte of text."""
     from urwid import str_util
     from urwid.util import apply_target_encoding
     out = []
@@ -176,11 +176,13 @@ def char_data(text):
                 i = j
         for i in range(n):
             e = 0 if text[i] in (14, 15) else 1
-            out.append((e, wid[i] if e else 0))
+            out.append((e, wid[i] if e else 0, int(text[i] < 128)))
         return out
     for ch in text:
         b = apply_target_encoding(ch)[0]
-        out.append((len(b), str_util.calc_width(b, 0, len(b)) if b else 0))
+        if ch.isascii() and len(b) > 1:
+            raise core.MachineryError("enc_ok premise violated: ASCII %r encodes to %d bytes" % (ch, len(b)))
+        out.append((len(b), str_util.calc_width(b, 0, len(b)) if b else 0, int(ch.isascii())))
     return out
 
 
@@ -432,21 +434,22 @@ class C17(core.Check):
     level_text = (
         "Proved in Coq for ALL inputs of the model, no size bound: markup_innermost (every markup tree: the flattened text "
         "is the concatenation of the strings and every character carries the attribute of its innermost tag; run lengths "
-        "sum to the text length); layout_keeps_attr (every text, attribute list and line of well-formed layout segments: "
-        "every byte of every displayed character carries that character's attribute, inserted text/clipping pads take the "
-        "attribute at their offset, alignment padding and canvas fill carry None) under the hypothesis that every "
-        "character encodes to >= 1 byte; fill_attr_compose / attrmap_replaces_exactly_listed / attrmap_focus_choice / "
-        "nested_maps_compose (every widget tree of AttrMap, Pile, Columns over leaves: each view's final map equals the "
-        "maps on its path applied inner to outer, each chosen by the focus flag that reaches it); sgr_roundtrip (every "
-        "AttrSpec with in-range colour numbers, every colour depth, bright-is-bold and bright-is-blink on/off: the "
-        "independent SGR decoder reads back exactly the specified fg, bg and flags, bright colours through bold/blink "
-        "where the terminal needs that); undefined_name_defaults; palette_resolves_without_alias (every history of "
-        "register_palette_entry / set_terminal_properties: every registered name resolves to the escape of its entry for "
-        "the active depth).  REFUTED with witnesses replayed on the implementation (known findings): "
-        "layout_keeps_attr_full (a 0-byte SO/SI character next to a multi-byte character shifts an attribute into the "
-        "middle of that character) and palette_resolves_full (a (name, like_name) alias is never given an escape "
-        "sequence).  Correspondence/oracle only: that the hand model matches the Python code (exact extracted-model "
-        "comparison on every case), widths/encodings of real characters, Pile/Columns geometry.")
+        "sum to the text length); layout_keeps_attr_full (every str or bytes text, attribute list and multi-line layout of "
+        "well-formed segments: every byte of every displayed character carries that character's attribute, inserted "
+        "text/clipping pads take the attribute at their offset, alignment padding and canvas fill carry None, and no "
+        "zero-length run is left in a row) - the only premise is the data condition enc_ok (encoded lengths >= 0; a byte / an "
+        "ASCII character becomes at most one byte), nothing is assumed of non-ASCII characters; fill_attr_compose / "
+        "attrmap_replaces_exactly_listed / attrmap_focus_choice / nested_maps_compose (every widget tree of AttrMap, Pile, "
+        "Columns over leaves: each view's final map equals the maps on its path applied inner to outer, each chosen by the "
+        "focus flag that reaches it); sgr_roundtrip (every AttrSpec with in-range colour numbers, every colour depth, "
+        "bright-is-bold and bright-is-blink on/off: the independent SGR decoder reads back exactly the specified fg, bg "
+        "and flags, bright colours through bold/blink where the terminal needs that); palette_resolves_full (every history "
+        "of register_palette_entry / aliases / set_terminal_properties: every name in the palette resolves to the escape "
+        "of its entry for the active depth) and palette_name_to_terminal (chained with the round trip); "
+        "undefined_name_defaults.  Nothing is _partial or refuted any more (the three defects this check found were "
+        "repaired: 0eea584, b5288ea, c165cd7; their inputs are regression cases in corpus/C17).  "
+        "Correspondence/oracle only: that the hand model matches the Python code (exact extracted-model comparison on "
+        "every case), widths/encodings of real characters, Pile/Columns geometry.")
     level_note = (
         "Trusted: Coq kernel, ExtrOcamlBasic extraction + OCaml driver, the hand-written model (tied by the correspondence, "
         "not proved against Python), the Python oracle and its SGR decoder.  Inputs taken as data from urwid itself: the "
@@ -471,7 +474,8 @@ class C17(core.Check):
         "attribute names are compared with ==; the universe used has pairwise different names",
         "TERM is not fbterm (its private escape format is not SGR)",
         "every layout line fits in maxcol (true of StandardTextLayout); custom layouts relying on trim_line are not modelled",
-        "target encodings are stateless (utf-8, 8-bit, EUC): the encoded length of a string is the sum over its characters",
+        "target encodings are stateless and ASCII-compatible (utf-8, 8-bit, EUC): the encoded length of a string is the "
+        "sum over its characters and an ASCII character / a byte is at most one byte (enc_ok, checked on every case)",
         "on a bright-is-bold terminal a bright basic foreground is conveyed as bold + colour-8 (the terminal's own convention)",
         "the attribute of an ellipsis / of the pad replacing half a wide character is not constrained by the property (not judged)",
     ]
@@ -752,16 +756,16 @@ class C17(core.Check):
                     return None
                 cd = char_data(text)
                 out = [7, case["w"], len(cd)]
-                for e, w in cd:
-                    out += [e, w]
+                for e, w, a in cd:
+                    out += [e, w, a]
                 return out + enc_markup(case["m"]) + enc_layout(ls)
         if k == "layout":
             with Enc(case["enc"]):
                 text = bytes(case["text"]) if case["isb"] else "".join(chr(c) for c in case["text"])
                 cd = char_data(text)
-                out = [2, case["w"], len(cd)]
-                for e, w in cd:
-                    out += [e, w]
+                out = [2, case["w"], int(bool(case["isb"])), len(cd)]
+                for e, w, a in cd:
+                    out += [e, w, a]
                 out.append(len(case["attr"]))
                 for a, n in case["attr"]:
                     out += oz(a) + [n]
@@ -1355,7 +1359,7 @@ class C17(core.Check):
             m = ["l", [m, self.rand_str(rng, enc, not isb, False)]]
         return {"kind": "markup", "m": m}
 
-    def gen_text(self, rng, so_p=0.04):
+    def gen_text(self, rng, so_p=0.12):
         enc = rng.choice(ENCODINGS + ["utf-8", "utf-8"])
         isb = rng.random() < 0.2
         so = rng.random() < so_p
@@ -1374,7 +1378,7 @@ class C17(core.Check):
         with Enc(enc):
             s = ["s", isb, []]
             while len(s[2]) < 3:
-                s = self.rand_str(rng, enc, isb, rng.random() < 0.05)
+                s = self.rand_str(rng, enc, isb, rng.random() < 0.15)
             codes = [c for c in s[2] if c != 10]
             text = bytes(codes) if isb else "".join(chr(c) for c in codes)
             n = len(codes)
